@@ -5,6 +5,7 @@ package witness
 
 //@ func witness.OriginHash props C18 C20
 //@   defines ret == originHashOf(origin)
+//@   ensures [C18,C20] lowercase-hex-sha256-of-the-exact-origin-bytes: ret == hexOf(sha256Of(bytes(origin)))
 
 //@ guarded [C14,C15] witness.logState.mu: checkpoint, nextEntry, mirrorCheckpoint
 
@@ -12,6 +13,12 @@ package witness
 //@   requires w != nil && !held(&w.logsMu)
 //@   defines ret1 ==> ret0 == stateOf(w, origin) && ret0 != nil
 //@   ensures !held(&w.logsMu)
+
+// Start-up: the three cosigners are built from exactly the configured (name, key) pairs, each in its own role.
+//@ func witness.NewWitness props C14 C15 C16
+//@   requires config != nil
+//@   call torchwood.NewCosignatureSigner requires [C14,C16] only-configured-name-key-pairs: (c_name == config.Name && (c_key == iface(config.KeyEd25519) || c_key == iface(config.KeyMLDSA44))) || (c_name == config.MirrorName && c_key == iface(config.KeyMirror))
+//@   returns [C14,C16] signers-in-their-roles: ret1 == nil ==> (ret0 != nil && isCosigSigner(ret0.s1, config.Name, iface(config.KeyEd25519)) && isCosigSigner(ret0.s2, config.Name, iface(config.KeyMLDSA44)) && (config.MirrorName != "" ==> isCosigSigner(ret0.sm, config.MirrorName, iface(config.KeyMirror))) && (config.MirrorName == "" ==> ret0.sm == nil))
 
 // The verifier list a submitted checkpoint is opened with is built, per request, from the configured keys of exactly
 // the origin named in the request (no list shared between logs).
@@ -22,7 +29,7 @@ package witness
 //@   ensures [C14,C15] leaves-the-lock-free: !held(&w.logsMu)
 //@   returns [C14,C15] a-fresh-list-for-this-request: ret1 ==> (gVLCalls == 1 && ret0 == gVLRet)
 
-//@ func witness.(*Witness).updateCheckpoint props C14 C16
+//@ func witness.(*Witness).updateCheckpoint props C14 C15 C16
 //@   requires w != nil && w.c != nil && submitted != nil && !held(&w.logsMu) && !held(&stateOf(w, origin).mu)
 //@   init gReplaceTried == 0 && gReplaceOK == 0 && gUp == emptyset("set[string]") && gUpTried == emptyset("set[string]")
 //@   call ctlog.LockBackend.Replace requires [C14] size-on-record: known.N == oldSize && oldSize <= newSize
@@ -59,7 +66,7 @@ package witness
 //@ census [C14] update-callers: callers witness.(*Witness).updateCheckpoint within witness.(*Witness).processAddCheckpointRequest in witness
 //@ pure func stateOf(w Ref, origin string) *witness.logState
 
-//@ func witness.(*Witness).processAddCheckpointRequest props C14 C16
+//@ func witness.(*Witness).processAddCheckpointRequest props C14 C15 C16
 //@   requires w != nil && w.c != nil && !held(&w.logsMu)
 //@   requires forall o string :: !held(&stateOf(w, o).mu)
 //@   call witness.(*Witness).updateCheckpoint requires [C14] log-signature-verified: openedBy(n, noteBytes, v) && c == ckptOf(n.Text) && c.Extension == ""
@@ -129,7 +136,7 @@ package witness
 // fetchAndDecompress is an opaque source of (unauthenticated) tile bytes here
 //@ func witness.fetchAndDecompress props C15
 
-//@ func witness.(*Witness).ensureCutTiles props C15
+//@ func witness.(*Witness).ensureCutTiles props C15 C18
 //@   requires w != nil && w.c != nil && pending != nil && pending.N >= 0
 //@   init gUp == emptyset("set[string]") && gUpTried == emptyset("set[string]")
 //@   call witness.fetchAndDecompress bind wide0 = ret0
@@ -139,7 +146,7 @@ package witness
 //@   ensures [C15] never-touches-the-checkpoint-object: gUpTried["mirror/" + originHashOf(pending.Origin) + "/checkpoint"] == old(gUpTried)["mirror/" + originHashOf(pending.Origin) + "/checkpoint"]
 //@   returns [C15] success-means-the-cut-tiles-are-there: ret == nil ==> (pending.N % 256 == 0 || (gFetchTried[hashKey] && !gFetchFailed[hashKey]) || (gUp[dataKey] && gUp[hashKey]))
 
-//@ func witness.(*Witness).processAddEntriesCommit props C15
+//@ func witness.(*Witness).processAddEntriesCommit props C15 C18
 //@   requires w != nil && w.c != nil && w.sm != nil && pending != nil && pending.N >= 0 && !held(&w.logsMu) && !held(&stateOf(w, pending.Origin).mu)
 //@   init gReplaceTried == 0 && gReplaceOK == 0 && gUp == emptyset("set[string]") && gUpTried == emptyset("set[string]")
 //@   call witness.(*Witness).ensureCutTiles requires [C15] cut-tiles-for-this-checkpoint: c_pending == pending && c_nextEntry == nextEntry && gReplaceTried == 0
